@@ -216,7 +216,9 @@ def find_pairs(
     base_phosphate_pairs = []
     base_ribose_pairs = []
     used_atoms: Set[Atom] = set()
-    for i, j in kdtree.query_pairs(HYDROGEN_BOND_MAX_DISTANCE):
+    # in atom order: the set returned by query_pairs iterates in an order that
+    # depends on the coordinates, and used_atoms is first come, first served
+    for i, j in sorted(kdtree.query_pairs(HYDROGEN_BOND_MAX_DISTANCE)):
         type_i = coordinates_type_map[coordinates[i]]
         type_j = coordinates_type_map[coordinates[j]]
 
